@@ -84,7 +84,8 @@ def build_and_validate(n, pairs, okind, dflag, share, flagvals=None):
     from sym_metanet.errors import InvalidNetworkError
 
     # names are free text: percent signs, braces and blanks must not matter
-    nodes = [M.Node(name=f"N{i} 50%s {{x}} %d%%") for i in range(n)]
+    # (under the same-name selector the nodes, too, are distinct objects that carry one name)
+    nodes = [M.Node(name="samename" if (share and share[0] == "samename") else f"N{i} 50%s {{x}} %d%%") for i in range(n)]
     net = M.Network(name="c06 %s {0}")
     for nd in nodes:
         net.add_node(nd)
